@@ -119,6 +119,7 @@ class TabularEnv(AbstractEnv):
             "box": self.box,
             "bounds": np.asarray(self.bounds, dtype=np.float64),
             "coef": float(self.coef),
+            "masks": None if self.masks is None else np.asarray(self.masks).tolist(),
         }
 
 
